@@ -248,7 +248,7 @@ pub fn run(tier: Tier) -> i32 {
     let started = std::time::Instant::now();
     let (depth, cap, big_cap, secs) = match tier {
         Tier::Quick => (6, 3000, 1200, 50),
-        Tier::Thorough => (9, 60_000, 9_000, 2400),
+        Tier::Thorough => (12, 60_000, 60_000, 2400),
     };
     let pairs = pool::corpus_pairs();
     let ctl = RunCtl::new(secs);
